@@ -47,6 +47,59 @@ CHECKS = {
             'stdlib ipaddress classification; bool ports tolerated; resolution of hostnames not '
             'judged.',
             'DESIGN.md §3 C19'),
+    'C01': ('exploration',
+            'Hypothesis-generated chains x flush schedules x daemon trajectories through the real '
+            'BlockProcessor/DB on LevelDB, compared with an independent replay model',
+            'Generated valid chains (same-block spend chains, spends of flushed outputs, real 4-byte '
+            'txid-prefix collisions, OP_RETURN on both sides of activation, zero values) are indexed '
+            'under generated flush schedules, prefetch and reorg limits; every UTXO observable and the '
+            'raw h/u rows must equal the model after catch-up and after restart. Sampled.',
+            'LevelDB atomicity; FakeDaemon models bitcoind; small chains.',
+            'DESIGN.md §3 C01'),
+    'C02': ('exploration',
+            'same generator as C01 with denser flush schedules; list-equality oracle on histories, '
+            'limits, tx-number map and raw history rows against the replay model',
+            'Histories (all limits), the tx-number map, per-block tx hashes and concatenated raw '
+            'history rows of generated chains must equal the model exactly (order, multiplicity). '
+            'Sampled.',
+            'LevelDB atomicity; FakeDaemon models bitcoind; small chains.',
+            'DESIGN.md §3 C02'),
+    'C03': ('exploration',
+            'model-based operation sequences (extend / fork / deferred fork / forced reorg / flush '
+            'plan / restart / settle) over the real node, invariant = observation equals the replay '
+            'model of the daemon\'s best chain after every settle',
+            'Generated reorganisation histories within the statement\'s precondition are run through '
+            'the real fetch_and_process_blocks loop; after every settle every observable and raw row '
+            'must equal the model of the surviving chain. Sampled.',
+            'LevelDB atomicity; orphaned blocks stay fetchable by hash.',
+            'DESIGN.md §3 C03'),
+    'C04': ('fault_enumeration',
+            'crash-point enumeration: every write operation (and torn file-write prefixes) of '
+            'generated sync scenarios is cut, the database re-opened, observed, resumed; oracle = '
+            'replay model at the committed height and at the tip',
+            'For each generated scenario every write after the database is open is a cut point '
+            '(exhaustive per scenario) with torn variants; thorough also cuts every write of the '
+            'recovery. Scenarios are sampled.',
+            'crash = process death; LevelDB batches atomic; power loss not modelled.',
+            'DESIGN.md §3 C04'),
+    'C05': ('fault_enumeration',
+            'crash-point enumeration over generated reorganisations x six daemon continuations; '
+            'oracle = replay model of the daemon\'s chain after restart and catch-up',
+            'For each generated reorganisation every write from the trigger until the index settles '
+            'again is a cut point (exhaustive per scenario) and every continuation that satisfies the '
+            'statement\'s precondition is tried. One open finding (history rolled back, UTXOs not) is '
+            'attributed by signature. Scenarios are sampled.',
+            'crash = process death; LevelDB batches atomic.',
+            'DESIGN.md §3 C05'),
+    'C18': ('fault_enumeration',
+            'bounded-exhaustive fault-sequence enumeration over a fake HTTP layer under virtual time '
+            '+ Hypothesis-drawn longer/concurrent sequences; oracle = world answer at the successful '
+            'attempt and a reference model of back-off/fail-over',
+            'Every fault sequence up to the bound over a 9-letter alphabet x URLs x back-off settings '
+            'x call kinds is enumerated against the real Daemon; longer and concurrent ones are '
+            'sampled.',
+            'FakeHTTP models bitcoind\'s wire behaviour; virtual time.',
+            'DESIGN.md §3 C18'),
 }
 
 NOT_BUILT = {}
